@@ -46,6 +46,42 @@ class Violation(Exception):
     pass
 
 
+# --------------------------------------------------------------------------
+# Machine-wide throttle: at most NCPU heavy child processes (coqc evaluations, implementation
+# workers) at a time over ALL concurrently running checks, so that several checks started at
+# once queue instead of thrashing (time limits then measure work, not waiting).
+# --------------------------------------------------------------------------
+SLOT_DIR = Path(os.environ.get("VERIF_SLOT_DIR", "/tmp/d3verif-slots"))
+
+
+class Slot:
+    def __init__(self):
+        self.f = None
+
+    def __enter__(self):
+        try:
+            SLOT_DIR.mkdir(parents=True, exist_ok=True)
+        except OSError:
+            return self
+        n = NCPU
+        start = random.randrange(n)
+        while True:
+            for k in range(n):
+                f = open(SLOT_DIR / f"slot_{(start + k) % n}.lock", "w")
+                try:
+                    fcntl.flock(f, fcntl.LOCK_EX | fcntl.LOCK_NB)
+                    self.f = f
+                    return self
+                except OSError:
+                    f.close()
+            time.sleep(0.2 + random.random() * 0.3)
+
+    def __exit__(self, *a):
+        if self.f is not None:
+            self.f.close()
+            self.f = None
+
+
 def sh(cmd, timeout=None, cwd=None, env=None, input=None):
     p = subprocess.run(
         cmd, shell=isinstance(cmd, str), cwd=cwd, env=env, input=input,
@@ -192,29 +228,18 @@ def check_props_file(pid, timeout=900):
 def coq_eval_files(pid, files, timeout=600, jobs=None):
     """Compile the given generated .v files (absolute paths under work/) in
     parallel; return {path: (rc, stdout)}."""
+    from concurrent.futures import ThreadPoolExecutor
     jobs = jobs or NCPU
-    procs = {}
-    results = {}
-    pending = list(files)
-    running = []
-    while pending or running:
-        while pending and len(running) < jobs:
-            f = pending.pop(0)
-            p = subprocess.Popen(
+
+    def one(f):
+        with Slot():
+            p = subprocess.run(
                 f"ulimit -s unlimited 2>/dev/null; timeout {timeout} coqc -q -Q {COQ}/theories D3 {f} > {f}.out 2>&1",
-                shell=True, cwd=str(Path(f).parent),
-            )
-            running.append((f, p))
-        still = []
-        for f, p in running:
-            if p.poll() is None:
-                still.append((f, p))
-            else:
-                results[f] = (p.returncode, Path(f + ".out").read_text())
-        running = still
-        if running:
-            time.sleep(0.05)
-    return results
+                shell=True, cwd=str(Path(f).parent))
+        return f, (p.returncode, Path(f + ".out").read_text())
+
+    with ThreadPoolExecutor(max_workers=jobs) as ex:
+        return dict(ex.map(one, list(files)))
 
 
 def coq_eval_lines(pid, header, case_exprs, tag="cases", per_file=300, timeout=900):
@@ -291,8 +316,9 @@ def run_impl(pid, script, payload, timeout=900, jit=True, tag="job"):
     fin.write_text(json.dumps(payload))
     cmd = [PY, "-m", f"harness.impl.{script}", str(fin), str(fout)]
     try:
-        p = subprocess.run(cmd, cwd=str(VERIF), env=impl_env(jit), stdout=subprocess.PIPE,
-                           stderr=subprocess.STDOUT, text=True, timeout=timeout)
+        with Slot():
+            p = subprocess.run(cmd, cwd=str(VERIF), env=impl_env(jit), stdout=subprocess.PIPE,
+                               stderr=subprocess.STDOUT, text=True, timeout=timeout)
     except subprocess.TimeoutExpired as e:
         return dict(status="timeout", rc=None, log=(e.stdout or "")[-2000:] if isinstance(e.stdout, str) else "")
     if p.returncode != 0 or not fout.exists():
